@@ -420,6 +420,90 @@ def asciiReal (parse : Bytes → Option Nat) (declared : Nat) : Codec Nat where
   size _ := declared
   ok n := (doubleParts n).isSome ∧ (asciiRealField n).length = 24
 
+/-! ## Python `float(text)` on the texts of the E format, and the Ascii classes as they are
+
+`float()` is correctly rounded: the decimal number the text denotes is converted to the nearest double, ties to even.
+`parseEText` reads the text exactly (sign, decimal digits, exponent); `roundToDouble` rounds the exact rational. -/
+
+def isDigit (b : UInt8) : Bool := 48 ≤ b && b ≤ 57
+
+/-- optional sign, digits (the exponent part) -/
+def parseSignedNat (s : Bytes) : Option Int :=
+  match s with
+  | 43 :: ds => (parseNat ds).map (fun n => (n : Int))
+  | 45 :: ds => (parseNat ds).map (fun n => -(n : Int))
+  | ds => (parseNat ds).map (fun n => (n : Int))
+
+/-- `[blanks][sign]digits.digitsE[sign]digits[blanks]` ↦ (negative, all mantissa digits as one number, decimal
+exponent of the last mantissa digit); `none` for any other text (the writer produces no other) -/
+def parseEText (s : Bytes) : Option (Bool × Nat × Int) :=
+  let t := (rstrip s).dropWhile isWs
+  let st : Bool × Bytes := match t with
+    | 45 :: r => (true, r)
+    | 43 :: r => (false, r)
+    | r => (false, r)
+  let ip := st.2.takeWhile isDigit
+  match st.2.dropWhile isDigit with
+  | 46 :: t2 =>
+    let fp := t2.takeWhile isDigit
+    match t2.dropWhile isDigit with
+    | 69 :: t4 =>
+      match parseSignedNat t4, parseNat (ip ++ fp) with
+      | some e, some m => if ip.isEmpty then none else some (st.1, m, e - (fp.length : Int))
+      | _, _ => none
+    | _ => none
+  | _ => none
+
+/-- the double nearest to ±m·10^e10 (round half to even), as a 64-bit pattern; `none` when it overflows (Python
+returns inf, which no finite double's text denotes) -/
+def roundToDouble (neg : Bool) (m : Nat) (e10 : Int) : Option Nat :=
+  let sign : Nat := if neg then 2 ^ 63 else 0
+  if m = 0 then some sign else
+  let num : Nat := if e10 ≥ 0 then m * 10 ^ e10.toNat else m
+  let den : Nat := if e10 ≥ 0 then 1 else 10 ^ (-e10).toNat
+  -- t with 2^t ≤ num/den < 2^(t+1)
+  let est : Int := (Nat.log2 num : Int) - (Nat.log2 den : Int)
+  let ge2 (t : Int) : Bool :=
+    if t ≥ 0 then decide (num ≥ den * 2 ^ t.toNat) else decide (num * 2 ^ (-t).toNat ≥ den)
+  let t : Int := if ge2 (est + 1) then est + 1 else if ge2 est then est else est - 1
+  -- the unit in the last place is 2^e2: 53 significant bits, not below the subnormal spacing
+  let e2 : Int := max (t - 52) (-1074)
+  let n2 : Nat := if e2 ≥ 0 then num else num * 2 ^ (-e2).toNat
+  let d2 : Nat := if e2 ≥ 0 then den * 2 ^ e2.toNat else den
+  let q := n2 / d2
+  let r := n2 % d2
+  let q' := if 2 * r > d2 then q + 1 else if 2 * r = d2 then (if q % 2 = 0 then q else q + 1) else q
+  let mm : Nat := if q' ≥ 2 ^ 53 then q' / 2 else q'
+  let ee : Int := if q' ≥ 2 ^ 53 then e2 + 1 else e2
+  if mm < 2 ^ 52 then some (sign + mm)
+  else
+    let be : Int := ee + 1075
+    if be ≥ 2047 then none else some (sign + be.toNat * 2 ^ 52 + (mm - 2 ^ 52))
+
+/-- Python `float(text)` for E-format texts -/
+def parseFloatText (s : Bytes) : Option Nat :=
+  match parseEText s with
+  | some (neg, m, e) => roundToDouble neg m e
+  | none => none
+
+/-- AsciiRecordWriter.rwFloat/rwDouble and AsciiRecordReader.rwFloat with the modelled `float()`. A value is in the
+routine's domain when it is finite, its text fills the 24 columns exactly, and the text converts back to it - all
+three decidable (the last one is what `float(format(x)) == x` means for this x) -/
+def asciiRealM (declared : Nat) : Codec Nat where
+  enc n := asciiRealField n
+  dec bs := match parseFloatText (bs.take 24) with
+    | none => none
+    | some v => some (v, bs.drop 24)
+  size _ := declared
+  ok n := (doubleParts n).isSome ∧ (asciiRealField n).length = 24 ∧ parseFloatText (asciiRealField n) = some n
+
+/-- the Ascii record classes have no `rwLong` (AttributeError): no value is in its domain -/
+def asciiLong : Codec Int where
+  enc _ := []
+  dec _ := none
+  size _ := 0
+  ok _ := False
+
 /-! ## bookkeeping around the records -/
 
 /-- AtfluxStream.getEnergyGroupIndex / NafluxStream._getEnergyGroupIndex: `ng - g - 1` (the forward files'
@@ -559,6 +643,10 @@ structure Codecs where
   cf : Codec Nat
   cd : Codec Nat
   cs : Nat → Codec Bytes
+
+/-- the Ascii record classes with the modelled `float()` and without `rwLong` -/
+def asciiCodecsM : Codecs :=
+  { ci := asciiInt, cl := asciiLong, cf := asciiRealM 4, cd := asciiRealM 8, cs := asciiStr }
 
 def binaryCodecs : Codecs := { ci := int32, cl := int64, cf := bits32, cd := bits64, cs := str }
 
